@@ -238,7 +238,7 @@ func (f *fnCFG) lockOps(n ast.Node) []struct {
 						out = append(out, struct {
 							key string
 							d   int
-						}{types.ExprString(se.X), d})
+						}{types.ExprString(se.X) + readLockSuffix(fn), d})
 					}
 				}
 			}
@@ -375,7 +375,7 @@ func (f *fnCFG) lockOpsBefore(root, n ast.Node) []struct {
 							out = append(out, struct {
 								key string
 								d   int
-							}{types.ExprString(se.X), d})
+							}{types.ExprString(se.X) + readLockSuffix(fn), d})
 						}
 					}
 				}
@@ -519,4 +519,58 @@ func lastReturnExpr(fd *ast.FuncDecl) ast.Expr {
 		return rs.Results[0]
 	}
 	return nil
+}
+
+// readLockSuffix: a read lock (RLock/RUnlock) is tracked under "<mutex>#R": it protects reads, not writes.
+func readLockSuffix(fn *types.Func) string {
+	if fn.Name() == "RLock" || fn.Name() == "RUnlock" {
+		return "#R"
+	}
+	return ""
+}
+
+// normHeld interprets a lockset for one access: a write needs the exclusive lock (read locks are dropped); a read is
+// protected by either (read locks are reported under the mutex's own name).
+func normHeld(held map[string]bool, write bool) map[string]bool {
+	out := map[string]bool{}
+	for k := range held {
+		if strings.HasSuffix(k, "#R") {
+			if !write {
+				out[strings.TrimSuffix(k, "#R")] = true
+			}
+			continue
+		}
+		out[k] = true
+	}
+	return out
+}
+
+// accessIsWrite: the expression e (a map or slice valued selector/identifier) is being modified at this occurrence:
+// element store, delete, clear, append-assign or assignment of e itself.
+func accessIsWrite(root ast.Node, e ast.Expr) bool {
+	w := false
+	ast.Inspect(root, func(n ast.Node) bool {
+		switch n := n.(type) {
+		case *ast.AssignStmt:
+			for _, l := range n.Lhs {
+				l = ast.Unparen(l)
+				if l == e {
+					w = true
+				}
+				if ix, ok := l.(*ast.IndexExpr); ok && ast.Unparen(ix.X) == e {
+					w = true
+				}
+			}
+		case *ast.IncDecStmt:
+			if ix, ok := ast.Unparen(n.X).(*ast.IndexExpr); ok && ast.Unparen(ix.X) == e {
+				w = true
+			}
+		case *ast.CallExpr:
+			if id, ok := n.Fun.(*ast.Ident); ok && (id.Name == "delete" || id.Name == "clear") && len(n.Args) > 0 && ast.Unparen(n.Args[0]) == e {
+				w = true
+			}
+		}
+		return true
+	})
+	return w
 }
